@@ -22,6 +22,7 @@ func init() {
 			c.min("R-VDT/spec", 25)
 			c.ruleHeaderHash()
 			c.rulePBFields()
+			c.ruleLastWrite()
 			c.ruleNoHandRolled("R-NOHANDROLLED", "dot/types", "dot/network/messages", "lib/grandpa", "internal/primitives/consensus/grandpa")
 		})
 }
